@@ -135,7 +135,11 @@ func (ge *GroupEntry) Parse(line string) error {
 	}
 	ge.GID = uint32(gid)
 
-	ge.Members = strings.Split(parts[3], ",")
+	// an empty member field is a group without members, not one member with an empty name
+	ge.Members = nil
+	if parts[3] != "" {
+		ge.Members = strings.Split(parts[3], ",")
+	}
 
 	return nil
 }
